@@ -60,6 +60,8 @@ Definition gadd_delay (c : gcircuit) (g : nat) : bool :=
   if group_spread c g || (continuous c && existsb g_has_delay (ggroup c g))
   then existsb (fun e => negb (Qle_bool (this (slot_m c e)) (this (gdt c)))) (ggroup c g)
   else existsb (fun e => negb (Qle_bool (this (slot_m c e)) 1)) (ggroup c g).
+(* (with fixes/proposed_fix_C11_mixed_kinds.diff the first test runs over the edges WITH a spread only; the difference shows only when
+   every spread edge of the group has a delay <= dt, which g_above_step excludes) *)
 
 (* round(rate, 12) *)
 Definition ten12 : Qc := Q2Qc (inject_Z 1000000000000).
@@ -126,33 +128,57 @@ Definition g_conn (c : gcircuit) : bool :=
                     | None => true      (* a tap: an undelayed edge inside the source node *)
                     end) (gedges c).
 
-(* the augmented ODE system: state = node values xs ++ one chain per edge (zs, in edge order);
-   ps = (order, rate) per edge, srcs = the node each edge's chain is driven by *)
-Definition edge_dz (xs : list Qc) (src : nat) (p : nat * Qc) (z : list Qc) : list Qc :=
-  chain_rhs (snd p) (nth src xs 0%Qc) z.
-Definition edge_out (xs : list Qc) (src : nat) (z : list Qc) : Qc := chain_out (nth src xs 0%Qc) z.
+(* discrete delays inside this model (an edge with a plain delay and no spread, dde_approx = 0, is a ring-buffer delay of
+   round(d/dt) steps: C09).  plain_steps: the step count of a spread-less edge; the buffer is added when the largest one among the
+   spread-less edges that are buffered together exceeds 1 (Ring.gadd). *)
+Definition plain_steps (c : gcircuit) (e : gedge) : nat :=
+  match gd e with Some (d, None) => steps_of d (gdt c) | _ => O end.
+(* D111 (open): as the code is, ALL scalar edges leaving a (merged) source variable share one _add_edge_buffer call; as soon as one of
+   them has a spread the ODE branch is taken for all, and a spread-less edge gets the kernel of order `dde_approx if m else 0` = 0: a
+   pass-through, its discrete delay is silently dropped (vectorize=True: whenever ANY unit of the merged source vector has a spread edge).
+   fixed_mixed_kinds: false = the code as it is; true = fixes/proposed_fix_C11_mixed_kinds.diff (the two kinds are buffered separately). *)
+Definition fixed_mixed_kinds : bool := false.
+Definition impl_step (c : gcircuit) (e : gedge) : nat :=
+  let g := gkey c (gsrc e) in
+  if continuous c then O                                    (* dde_approx: every delay is a kernel *)
+  else if group_spread c g && negb fixed_mixed_kinds then O (* the defect: order-0 pass-through *)
+  else if Nat.ltb 1 (list_max (map (plain_steps c) (filter (fun e' => negb (has_spread e')) (ggroup c g)))) then plain_steps c e
+  else O.
+Definition spec_step (c : gcircuit) (e : gedge) : nat := if Nat.ltb 0 (gdde c) then O else plain_steps c e.
+Definition impl_steps (c : gcircuit) : list nat := map (impl_step c) (gedges c).
+Definition spec_steps (c : gcircuit) : list nat := map (spec_step c) (gedges c).
+
+(* the augmented ODE system: state = node values xs ++ one chain per edge (zs, in edge order); `older` = earlier rows, newest first;
+   ps = (order, rate) per edge, srcs = the node each edge's chain is driven by, steps = the discrete delay in front of it *)
+Definition edge_in (xs : list Qc) (older : list (list Qc)) (src step : nat) : Qc := past (xs :: older) step src.
+Definition edge_dz (u : Qc) (p : nat * Qc) (z : list Qc) : list Qc := chain_rhs (snd p) u z.
+Definition edge_out (u : Qc) (z : list Qc) : Qc := chain_out u z.
 Definition zip3 {A B C D} (f : A -> B -> C -> D) (a : list A) (b : list B) (c : list C) : list D :=
   map (fun t => f (fst (fst t)) (snd (fst t)) (snd t)) (combine (combine a b) c).
-Definition node_dy (c : gcircuit) (srcs : list nat) (xs : list Qc) (zs : list (list Qc)) (j : nat) (n : node) : Qc :=
+Definition inputs_of (xs : list Qc) (older : list (list Qc)) (srcs steps : list nat) : list Qc :=
+  map (fun p => edge_in xs older (fst p) (snd p)) (combine srcs steps).
+Definition node_dy (c : gcircuit) (us : list Qc) (zs : list (list Qc)) (j : nat) (n : node) : Qc :=
   if nsrc n then (nfac n * nk n)%Qc
-  else (nfac n * qsum (zip3 (fun e src z => if Nat.eqb (gtgt e) j then (gw e * edge_out xs src z)%Qc else 0%Qc)
-                            (gedges c) srcs zs))%Qc.
-Definition field (c : gcircuit) (ps : list (nat * Qc)) (srcs : list nat) (st : list Qc * list (list Qc)) : list Qc * list (list Qc) :=
+  else (nfac n * qsum (zip3 (fun e u z => if Nat.eqb (gtgt e) j then (gw e * edge_out u z)%Qc else 0%Qc)
+                            (gedges c) us zs))%Qc.
+Definition field (c : gcircuit) (ps : list (nat * Qc)) (us : list Qc) (st : list Qc * list (list Qc)) : list Qc * list (list Qc) :=
   let '(xs, zs) := st in
-  (mapi (node_dy c srcs xs zs) (gnodes c), zip3 (edge_dz xs) srcs ps zs).
-Definition euler_step (c : gcircuit) (ps : list (nat * Qc)) (srcs : list nat) (st : list Qc * list (list Qc)) : list Qc * list (list Qc) :=
-  let '(dx, dz) := field c ps srcs st in
+  (mapi (node_dy c us zs) (gnodes c), zip3 edge_dz us ps zs).
+Definition euler_step (c : gcircuit) (ps : list (nat * Qc)) (srcs steps : list nat) (older : list (list Qc))
+  (st : list Qc * list (list Qc)) : list Qc * list (list Qc) :=
+  let '(dx, dz) := field c ps (inputs_of (fst st) older srcs steps) st in
   (axpy (gdt c) (fst st) dx, map (fun p => axpy (gdt c) (fst p) (snd p)) (combine (snd st) dz)).
 Definition st0 (c : gcircuit) (ps : list (nat * Qc)) : list Qc * list (list Qc) :=
   (map nx0 (gnodes c), map (fun p => repeat 0%Qc (fst p)) ps).
-Fixpoint gruns (c : gcircuit) (ps : list (nat * Qc)) (srcs : list nat) (n : nat) (st : list Qc * list (list Qc)) : list (list Qc) :=
-  match n with O => [] | S n' => fst st :: gruns c ps srcs n' (euler_step c ps srcs st) end.
-Definition run_params (c : gcircuit) (ps : list (nat * Qc)) (srcs : list nat) (n : nat) : list (list Qc) :=
-  gruns c ps srcs n (st0 c ps).
+Fixpoint gruns (c : gcircuit) (ps : list (nat * Qc)) (srcs steps : list nat) (n : nat) (older : list (list Qc))
+  (st : list Qc * list (list Qc)) : list (list Qc) :=
+  match n with O => [] | S n' => fst st :: gruns c ps srcs steps n' (fst st :: older) (euler_step c ps srcs steps older st) end.
+Definition run_params (c : gcircuit) (ps : list (nat * Qc)) (srcs steps : list nat) (n : nat) : list (list Qc) :=
+  gruns c ps srcs steps n [] (st0 c ps).
 Definition gimpl_run (c : gcircuit) (n : nat) : res :=
-  if gcrashes c then ErrIndex else Ok (run_params c (impl_params c) (impl_srcs c) n).
-Definition gspec_run (c : gcircuit) (n : nat) : list (list Qc) := run_params c (spec_params c) (spec_srcs c) n.
-Definition gconn_run (c : gcircuit) (n : nat) : list (list Qc) := run_params c (conn_params c) (spec_srcs c) n.
+  if gcrashes c then ErrIndex else Ok (run_params c (impl_params c) (impl_srcs c) (impl_steps c) n).
+Definition gspec_run (c : gcircuit) (n : nat) : list (list Qc) := run_params c (spec_params c) (spec_srcs c) (spec_steps c) n.
+Definition gconn_run (c : gcircuit) (n : nat) : list (list Qc) := run_params c (conn_params c) (spec_srcs c) (spec_steps c) n.
 
 (* ---- explicit grouping bookkeeping (slot indices and source indices of every chain; write-back) ---- *)
 (* slots: (key, source unit) per slot index; chains: first-appearance buckets of slot indices *)
@@ -172,7 +198,7 @@ Definition gwf (c : gcircuit) : bool :=
                     nsrc (gnode c (gsrc e)) && negb (nsrc (gnode c (gtgt e))) &&
                     match gd e with
                     | Some (d, Some s) => Qcpos d && Qcpos s
-                    | Some (d, None) => Qcpos d && (Nat.ltb 0 (gdde c) || group_spread c (gkey c (gsrc e)))
+                    | Some (d, None) => Qcpos d
                     | None => true
                     end) (gedges c).
 (* every delayed edge carries a spread, or (repaired) dde_approx > 0 keeps its delay continuous.  As the code is, a plain delay
@@ -214,5 +240,14 @@ Definition g_uniform_keys (c : gcircuit) : bool :=
 (* D110 (open, loud; see Ring.g_no_twin_collision): delayed edges leaving two variables of one operator do not compile *)
 Definition g_no_twin_collision (twins : list (nat * nat)) (c : gcircuit) : bool :=
   fixed_twin_names || forallb (fun p => negb (gadd_delay c (gkey c (fst p)) && gadd_delay c (gkey c (snd p)))) twins.
+(* the discrete delays of the spread-less edges are the specified ones.  False exactly on D111 (a plain delay that shares its (merged)
+   source variable with a spread edge, dde_approx = 0) and on the property's scope boundary (plain delays below two steps are neglected) *)
+Definition g_steps_exact (c : gcircuit) : bool :=
+  forallb (fun e => Nat.eqb (impl_step c e) (spec_step c e)) (gedges c).
+Definition g_no_plain_in_spread_group (c : gcircuit) : bool :=
+  fixed_mixed_kinds || Nat.ltb 0 (gdde c) ||
+  forallb (fun e => match gd e with Some (_, None) => negb (group_spread c (gkey c (gsrc e))) | _ => true end) (gedges c).
+Definition g_plain_ge2 (c : gcircuit) : bool :=
+  Nat.ltb 0 (gdde c) || forallb (fun e => match gd e with Some (_, None) => Nat.leb 2 (plain_steps c e) | _ => true end) (gedges c).
 Definition gguards (c : gcircuit) : bool :=
-  g_all_spread c && g_no_undelayed_kernel c && g_above_step c && g_rates_exact c && g_no_scalar_shared_chain c.
+  g_all_spread c && g_no_undelayed_kernel c && g_above_step c && g_rates_exact c && g_steps_exact c && g_no_scalar_shared_chain c.
